@@ -573,12 +573,13 @@ class CartesianProduct(Set):
         if inp is None:
             tpl = tuple(set_.element() for set_ in self.sets)
         else:
+            inp = tuple(inp)
+            if len(inp) != len(self):
+                raise ValueError('input provides {} values, needed '
+                                 'are {}'.format(len(inp), len(self)))
+
             tpl = tuple(set_.element(inpt)
                         for inpt, set_ in zip(inp, self.sets))
-
-            if len(tpl) != len(self):
-                raise ValueError('input provides only {} values, needed '
-                                 'are {}'.format(len(tpl), len(self)))
 
         return tpl
 
